@@ -1,5 +1,6 @@
 import FrappyProofs.Lemmas.Update
 import FrappyProofs.Lemmas.UpdateSys
+import FrappyModel.Generated.C05
 /-
 C05 — property theorems (nothing but property theorems and their non-vacuity examples).
 -/
@@ -8,24 +9,25 @@ namespace Frappy.Props.C05
 open Frappy.Update Frappy.Spec.C05
 
 section sequential
-variable {V E : Type} [DecidableEq E]
+variable {V E X : Type} [DecidableEq E]
 
 /-- Replaying the emitted messages over the initial value-or-error gives the cached value-or-error —
-for every entry, every oracle under `EqExact`, every history of calls and clock readings. -/
-theorem replay_eq_cache (o : Oracle V E) (h : EqExact o) (e : Entry V E) (evs : List (TEv V E)) :
-    replay e.ve ((run o e evs).msgs.map (·.ve)) = (run o e evs).entry.ve :=
-  replay_runR o h e _
+for every entry, every history of calls and clock readings, every oracle and export function `ex` such that
+values Python's `!=` does not tell apart have the same exported form. -/
+theorem replay_eq_cache (o : Oracle V E) (ex : V → X) (h : ExportExact o ex) (e : Entry V E) (evs : List (TEv V E)) :
+    replay (e.ve.map ex) ((run o e evs).msgs.map (fun m => m.ve.map ex)) = (run o e evs).entry.ve.map ex :=
+  replay_runR o ex h e _
 
 /-- … and this holds after every prefix of the history (the client never diverges from the cache). -/
-theorem reconstructs (o : Oracle V E) (h : EqExact o) (e : Entry V E) (evs : List (TEv V E)) :
-    Reconstructs e.ve ((trace o e evs).map obsOf) := by
+theorem reconstructs (o : Oracle V E) (ex : V → X) (h : ExportExact o ex) (e : Entry V E) (evs : List (TEv V E)) :
+    Reconstructs (e.ve.map ex) ((trace o e evs).map (obsOf ex)) := by
   unfold trace
   generalize evs.map (TEv.resolve o) = xs
   induction xs generalizing e with
   | nil => simp [traceR, Reconstructs]
   | cons x xs ih =>
     simp only [traceR, List.map_cons, Reconstructs, obsOf, replay_toList]
-    have hk := announceR_ve o h e x.now x.r
+    have hk := announceR_ve o ex h e x.now x.r
     constructor
     · rw [hk]
     · have := ih (announceR o e x.now x.r).entry
@@ -33,8 +35,8 @@ theorem reconstructs (o : Oracle V E) (h : EqExact o) (e : Entry V E) (evs : Lis
       exact this
 
 /-- Every emitted message equals the entry's value-or-error (and time stamp) at its emission. -/
-theorem never_phantom (o : Oracle V E) (e : Entry V E) (evs : List (TEv V E)) :
-    NeverPhantom ((trace o e evs).map obsOf) ∧
+theorem never_phantom (o : Oracle V E) (ex : V → X) (e : Entry V E) (evs : List (TEv V E)) :
+    NeverPhantom ((trace o e evs).map (obsOf ex)) ∧
     ∀ out ∈ trace o e evs, ∀ m, out.msg = some m → m = mkMsg out.entry := by
   unfold trace
   generalize evs.map (TEv.resolve o) = xs
@@ -59,25 +61,26 @@ theorem never_phantom (o : Oracle V E) (e : Entry V E) (evs : List (TEv V E)) :
 
 /-- The message list is the subsequence of cache changes, in order: it contains every change of the cache
 and is itself a subsequence of the states the cache went through. -/
-theorem order_preserved [DecidableEq V] (o : Oracle V E) (h : EqExact o) (e : Entry V E) (evs : List (TEv V E)) :
-    OrderPreserved e.ve ((trace o e evs).map obsOf) := by
+theorem order_preserved [DecidableEq X] (o : Oracle V E) (ex : V → X) (h : ExportExact o ex) (e : Entry V E)
+    (evs : List (TEv V E)) : OrderPreserved (e.ve.map ex) ((trace o e evs).map (obsOf ex)) := by
   unfold trace
   generalize evs.map (TEv.resolve o) = xs
   induction xs generalizing e with
   | nil => simp [traceR, OrderPreserved, states, allMsgs, changes]
   | cons x xs ih =>
     have ih' := ih (announceR o e x.now x.r).entry
-    have hk := announceR_ve o h e x.now x.r
+    have hk := announceR_ve o ex h e x.now x.r
     simp only [OrderPreserved, traceR, List.map_cons, states, allMsgs, List.flatMap_cons, obsOf, changes] at ih' ⊢
     cases hm : (announceR o e x.now x.r).msg with
     | none =>
       rw [hm] at hk
+      simp only [pick] at hk
       simp only [hk, if_true, Option.toList_none, List.map_nil, List.nil_append]
       rw [hk] at ih'
       exact ⟨ih'.1, List.Sublist.cons _ ih'.2⟩
     | some m =>
       rw [hm] at hk
-      simp only at hk
+      simp only [pick] at hk
       simp only [Option.toList_some, List.map_cons, List.map_nil, List.singleton_append]
       rw [← hk]
       constructor
@@ -99,9 +102,9 @@ theorem recovery_announced (o : Oracle V E) (e : Entry V E) (now : Int) (ev : Ev
   simp [mkMsg]
 
 /-- the same over whole histories, in the words of the specification -/
-theorem recovery_announced_trace (o : Oracle V E) (h : EqExact o) (isErr : VE V E → Bool)
+theorem recovery_announced_trace (o : Oracle V E) (ex : V → X) (h : ExportExact o ex) (isErr : VE X E → Bool)
     (e : Entry V E) (evs : List (TEv V E)) :
-    RecoveryAnnounced isErr e.ve ((trace o e evs).map obsOf) := by
+    RecoveryAnnounced isErr (e.ve.map ex) ((trace o e evs).map (obsOf ex)) := by
   unfold trace
   generalize evs.map (TEv.resolve o) = xs
   induction xs generalizing e with
@@ -110,13 +113,13 @@ theorem recovery_announced_trace (o : Oracle V E) (h : EqExact o) (isErr : VE V 
     simp only [traceR, List.map_cons, RecoveryAnnounced]
     refine ⟨?_, ih _⟩
     intro h1 h2
-    have hk := announceR_ve o h e x.now x.r
+    have hk := announceR_ve o ex h e x.now x.r
     simp only [obsOf] at h2 ⊢
     cases hm : (announceR o e x.now x.r).msg with
     | some m => simp
     | none =>
       rw [hm] at hk
-      simp only at hk
+      simp only [pick] at hk
       rw [hk, h1] at h2
       exact absurd h2 (by simp)
 
@@ -133,7 +136,7 @@ end sequential
 
 section concurrent
 open Frappy.UpdateSys
-variable {V E : Type} [DecidableEq E]
+variable {V E X : Type} [DecidableEq E]
 
 /-- Mutual exclusion: at most one thread is between `acquire` and `release` of the module's update lock. -/
 theorem one_thread_inside (c : Cfg V E) (init : Pid → Entry V E) (progs : Tid → List (Op V E)) (clock : Int)
@@ -205,28 +208,29 @@ theorem quiescent_is_sequential (c : Cfg V E) (init : Pid → Entry V E) (progs 
 /-- The statement for any number of threads and any schedule: at quiescence, replaying what a connection
 received reproduces the cache; every message was delivered while the cache held the state it carries; all
 activated connections received the same sequence. -/
-theorem conc_ok [DecidableEq V] (c : Cfg V E) (h : EqExact c.o) (init : Pid → Entry V E) (progs : Tid → List (Op V E))
-    (clock : Int) (s : Sys V E) (hn : c.conns.Nodup) (hr : Reach c (Sys.init init progs clock) s)
-    (hq : s.lock = none) (p : Pid) :
-    ConcOk (S := VE V E) ⟨(init p).ve, c.conns.map (fun k => (s.logs k p).map (fun d => ⟨d.msg.ve, d.seen⟩)),
-      (s.entries p).ve⟩ := by
+theorem conc_ok (c : Cfg V E) (ex : V → X) (h : ExportExact c.o ex) (init : Pid → Entry V E)
+    (progs : Tid → List (Op V E)) (clock : Int) (s : Sys V E) (hn : c.conns.Nodup)
+    (hr : Reach c (Sys.init init progs clock) s) (hq : s.lock = none) (p : Pid) :
+    ConcOk (S := VE X E) ⟨(init p).ve.map ex,
+      c.conns.map (fun k => (s.logs k p).map (fun d => ⟨d.msg.ve.map ex, d.seen.map ex⟩)),
+      (s.entries p).ve.map ex⟩ := by
   have hi := inv_reach hn hr
   obtain ⟨he, hlg⟩ := quiescent_is_sequential c init progs clock s hn hr hq p
-  have hmap : ∀ k, ((s.logs k p).map (fun d => (⟨d.msg.ve, d.seen⟩ : Delivered (VE V E)))).map (·.msg) =
-      (plog s k p).map (·.ve) := by
+  have hmap : ∀ k, ((s.logs k p).map (fun d => (⟨d.msg.ve.map ex, d.seen.map ex⟩ : Delivered (VE X E)))).map (·.msg) =
+      (plog s k p).map (fun m => m.ve.map ex) := by
     intro k; simp [plog, List.map_map, Function.comp_def]
   refine ⟨?_, ?_, ?_⟩
   · intro l hl
     simp only [List.mem_map] at hl
     obtain ⟨k, hk, rfl⟩ := hl
     rw [hmap, hlg k hk, he]
-    exact replay_runR c.o h (init p) (s.hist p)
+    exact replay_runR c.o ex h (init p) (s.hist p)
   · intro l hl d hd
     simp only [List.mem_map] at hl
     obtain ⟨k, _, rfl⟩ := hl
     simp only [List.mem_map] at hd
     obtain ⟨d', hd', rfl⟩ := hd
-    exact hi.seenOk k p d' hd'
+    rw [hi.seenOk k p d' hd']
   · intro l hl l' hl'
     simp only [List.mem_map] at hl hl'
     obtain ⟨k, hk, rfl⟩ := hl
@@ -235,6 +239,17 @@ theorem conc_ok [DecidableEq V] (c : Cfg V E) (h : EqExact c.o) (init : Pid → 
 
 end concurrent
 
+/-- Facts about the constants of the source the model relies on (regenerated from the repository on every
+run): the marker "use the default window" is not a window, `always` is the empty window, the class defaults
+of a fresh entry are "no time stamp, no window". -/
+theorem window_markers :
+    Frappy.Generated.C05.updateUnchangedDefault < 0 ∧ Frappy.Generated.C05.updateUnchangedAlways = 0 ∧
+    0 < Frappy.Generated.C05.updateUnchangedNever ∧
+    Frappy.Generated.C05.updateUnchangedPropertyDefault = Frappy.Generated.C05.updateUnchangedDefault ∧
+    Frappy.Generated.C05.entryDefaultTimestamp = 0 ∧ Frappy.Generated.C05.entryDefaultWindow = 0 ∧
+    Frappy.Generated.C05.eventReply = "update" ∧ Frappy.Generated.C05.errorEventReply = "error_update" := by
+  decide
+
 /-! ## non-vacuity -/
 section examples
 open Frappy.UpdateSys
@@ -242,7 +257,7 @@ open Frappy.UpdateSys
 /-- values and errors are numbers, `!=` is inequality, every conversion succeeds -/
 def exO : Oracle Nat Nat := ⟨fun a b => a == b, fun v => .ok v, fun v => .ok v⟩
 
-example : EqExact exO := by intro a b h; simpa [exO] using h
+theorem exO_exact : EqExact exO := by intro a b h; simpa [exO] using h
 
 def exE : Entry Nat Nat := ⟨5, none, 100, 10⟩
 
@@ -260,8 +275,9 @@ example : exE.readerror = none ∧ (announce exO exE 101 (.error 1)).entry.reade
 replaces the cached 5 silently -/
 theorem replay_eq_cache_needs_exact :
     ∃ (o : Oracle Nat Nat) (e : Entry Nat Nat) (evs : List (TEv Nat Nat)),
-      replay e.ve ((run o e evs).msgs.map (·.ve)) ≠ (run o e evs).entry.ve :=
-  ⟨⟨fun _ _ => true, fun v => .ok v, fun v => .ok v⟩, exE, [⟨101, .value 7 false⟩], by decide⟩
+      replay e.ve ((run o e evs).msgs.map (·.ve)) ≠ (run o e evs).entry.ve ∧ ¬ EqExact o :=
+  ⟨⟨fun _ _ => true, fun v => .ok v, fun v => .ok v⟩, exE, [⟨101, .value 7 false⟩], by decide,
+    fun h => absurd (h 0 1 rfl) (by decide)⟩
 
 def exCfg : Cfg Nat Nat := ⟨exO, [1, 2], 1⟩
 def exProgs : Tid → List (Op Nat Nat)
